@@ -55,7 +55,8 @@ def vocabulary(tier: str) -> List[Tuple[tuple, tuple]]:
             for t in (12, 5):
                 for alias in ("x.local.", "X.Local.", "y.local."):
                     add("ptr", n, t, c, (alias,), (alias.lower(),))
-            for txt in (b"", b"\x01a", b"\x01A"):
+            # (zero-length rdata and a single zero octet *mean* the same to RFC 6763 s.6.1 - they are still different rdata)
+            for txt in (b"", b"\x00", b"\x01a", b"\x01A", b"\x01a\x00"):
                 add("txt", n, 16, c, (txt,), (txt,))
             for srv in ((0, 0, 80, "s.local."), (0, 0, 80, "S.LOCAL."), (1, 0, 80, "s.local."), (0, 1, 80, "s.local."),
                         (0, 0, 81, "s.local."), (0, 0, 80, "t.local.")):
